@@ -104,6 +104,15 @@ func Generate(r *lp.Rng, o Opts) *Design {
 			m0.HTTP.MoreRoutes = append(m0.HTTP.MoreRoutes, []string{alt, m0.HTTP.Path})
 		}
 	}
+	if o.Index%3 == 0 {
+		// one endpoint with two routes whose wildcards come in different orders
+		s := g.d.Services[0]
+		id := func() *Att { return &Att{Type: &Type{Prim: "String"}, Val: &Validation{Pattern: "^[a-z]+$"}} }
+		m := &Method{Name: "locate", NoSecurity: o.Security,
+			Payload: &Att{Type: &Type{IsObject: true, Object: []*Field{{Name: "warehouse", Att: id()}, {Name: "item", Att: id()}}}, Required: []string{"warehouse", "item"}},
+			HTTP:    &HTTPMap{Verb: "GET", Path: "/warehouses/{warehouse}/items/{item}", MorePaths: []string{"/items/{item}/in/{warehouse}"}}}
+		s.Methods = append(s.Methods, m)
+	}
 	if o.Security && len(g.d.Schemes) > 0 {
 		g.securityShapes()
 	}
